@@ -238,6 +238,10 @@ class UidOracle(Oracle):
         errs = [e for e in rawgeoh5.validate(raw, concat=True) if e[0] == "R9"]
         # a clash with an orphan node left by removal-through-the-parent is that finding's consequence
         errs = [e for e in errs if not any(o.split("/")[1] in e[1] for o in orphans)]
+        # ... and so is a clash with the stale node of an entity removed through its parent whose identifier was given to a
+        # new entity since (the new entity sits on the old node, property groups included): recorded under C01 / C02 / C05
+        stale = {u for u, entry in getattr(world.h[h].model, "removed_entry", {}).items() if entry == "parent"}
+        errs = [e for e in errs if not any(u in e[1] for u in stale)]
         if errs:
             raise Violation("C06", "uid_shared_file", errs[0][1], {"rule": "R9"})
 
